@@ -54,7 +54,9 @@ def configs(name, rng, p, groups):
     if name == "ElasticNet":
         base["l1_ratio"] = 0.5
         var += [("l1_ratio_1", dict(l1_ratio=1.0)), ("l1_ratio_small", dict(l1_ratio=0.05)), ("l1_ratio_0.9", dict(l1_ratio=0.9)),
-                ("l1_ratio_0", dict(l1_ratio=0.0))]
+                ("l1_ratio_0", dict(l1_ratio=0.0)),
+                # (arguments also in combination: a shortcut taken for one value of l1_ratio must keep the other options)
+                ("l1_ratio_1_positive", dict(l1_ratio=1.0, positive=True)), ("l1_ratio_0_positive", dict(l1_ratio=0.0, positive=True))]
     if name == "MCPRegression":
         base.update(gamma=3.0, weights=None)
         var += [("gamma_large", dict(gamma=30.0)), ("gamma_1.5", dict(gamma=1.5)), ("weights", dict(weights="rand"))]
